@@ -78,7 +78,7 @@ def run(ctx):
             cases.append((a, b, mu, 'aimed p=%d' % pt))
         # c) masks with zero coefficients, coefficients at rounding edges, single non-zero coefficient
         for _ in range(4 if not thorough else 30):
-            a = [rng.choice([0, 0, (2 * rng.randrange(N) + 1) * 2**20 + rng.choice([-1, 0]), rng.randrange(-2**31, 2**31), 2**31 - 1, -2**31]) for _ in range(n)]
+            a = [rng.choice([0, 0, (2 * rng.randrange(2 * N) + 1) * 2**20 + rng.choice([-1, 0]), rng.randrange(-2**31, 2**31), 2**31 - 1, -2**31]) for _ in range(n)]
             cases.append(([vlib.w32(x) for x in a], rng.randrange(-2**31, 2**31), 2**29, 'edge mask'))
         a = [0] * n; a[rng.randrange(n)] = rng.randrange(-2**31, 2**31); cases.append((a, rng.randrange(-2**31, 2**31), 2**29, 'single'))
         # d) exact rounding ties of mask coefficients on key bits that are set, the exponent aimed so that rounding one of them the other
@@ -88,7 +88,7 @@ def run(ctx):
             if not ones: break
             a = [rng.randrange(-2**31, 2**31) for _ in range(n)]
             for i in rng.sample(ones, min(len(ones), rng.choice([1, 1, 2, 3]))):
-                a[i] = vlib.w32((2 * rng.randrange(N) + 1) * 2**20)          # exactly half-way between two multiples of 1/2N, odd and even lower neighbours alike
+                a[i] = vlib.w32((2 * rng.randrange(2 * N) + 1) * 2**20)      # exactly half-way between two multiples of 1/2N: odd and even lower neighbours, positive and negative values
             d = sum(rnd2N(ai)[0] for ai, si in zip(a, s) if si)
             pt = rng.choice([N - 1, 2 * N - 1])
             b = vlib.w32(((pt + d) % (2 * N)) * 2**21 + rng.randrange(-2**19, 2**19))
